@@ -1,5 +1,5 @@
 import StrandModel.Lemmas.ThresholdLemmas
-import StrandModel.Props.C01
+import StrandModel.Props.C01Core
 import StrandModel.Props.C15
 /-
 C10 — threshold decryption (threshold.rs): the library's Lagrange coefficients for a set of
